@@ -216,6 +216,18 @@ def check_cancel_chain(repo, rep):
     rep.floor(rid, 1)
 
 
+def check_gap_in_range(repo, rep):
+    """the minute's range handed to matching and to the liquidation check includes the gap to the previous close
+    (a liquidation price inside a gap must be hit): same exhaustive rule as C02-R3"""
+    from props.c02 import check_jump_fix
+    before = len(rep.violations)
+    check_jump_fix(repo, rep)
+    for v in rep.violations[before:]:
+        v["rule"] = "C09-R6"
+        v["key"] = v["key"].replace("C02-R3|", "C09-R6|")
+        v["message"] = "the minute's range does not include the gap to the previous close (a liquidation price inside the gap is missed): " + v["message"]
+
+
 def run(repo: Repo, rep, tier: str):
     rep.exhaustive = True
     rep.assume("backtest mode; exact arithmetic; leverage in [1,125]")
@@ -223,6 +235,7 @@ def run(repo: Repo, rep, tier: str):
     rep.guarded(check_trigger, repo, rep)
     rep.guarded(check_placement, repo, rep)
     rep.guarded(check_cancel_chain, repo, rep)
+    rep.guarded(check_gap_in_range, repo, rep)
 
 
 CLAIM = {
